@@ -61,6 +61,11 @@ pub fn generate(rng: &mut Rng, prop: Prop) -> Scenario {
     // what is already in flight behind the structure: nothing, garbage, or bytes that look like
     // valid structures themselves
     let trail = match rng.below(5) {
+        _ if !confused && !big_trail && rng.chance(1, 60) => {
+            // more than 64 KiB in flight behind an (unlied) structure of any kind
+            let n = rng.urange(65536, 140000);
+            if rng.chance(1, 2) { vec![rng.u8(); n] } else { rng.bytes(n) }
+        }
         _ if big_trail => {
             let n = rng.urange(65536, 70000) + if bytes.get(1) == Some(&2) || bytes.get(6) == Some(&2) { 65536 } else { 0 };
             if rng.chance(1, 2) { vec![rng.u8(); n] } else { rng.bytes(n) }
@@ -321,14 +326,14 @@ pub fn execute(scn: &Scenario, ctx: &mut Ctx) {
                 ctx.violate(Prop::C06, "provenance/outside-consumed", || format!("{}: slice `{}` ({} bytes) of the returned value lies outside the {} consumed bytes of the caller's buffer", kind, label, l, consumed));
             }
         }
-        // once the declared extent is buffered the outcome class never changes again (this includes
-        // "need more data": bytes behind the structure are not the structure's business)
+        // once the declared extent is buffered the outcome class - "(Ok/error)" in the statement's words -
+        // never changes again: bytes behind the structure are not the structure's business
         if let Some(e) = extent {
             if delivered >= e {
                 match &at_extent {
                     None => at_extent = Some((delivered, out)),
                     Some((at0, o0)) => {
-                        if o0.class != out.class && !(o0.is_rejection() && out.is_rejection()) {
+                        if o0.is_ok() != out.is_ok() {
                             let (at0, o0) = (*at0, *o0);
                             ctx.violate(Prop::C06, "locality/class-changed", || {
                                 format!("{}: declared extent {} bytes; answered {} with {} bytes buffered and {} with {} bytes buffered", kind, e, o0.show(), at0, out.show(), buf.len())
@@ -356,7 +361,7 @@ pub fn execute(scn: &Scenario, ctx: &mut Ctx) {
                 // appending bytes leaves the parsed value unchanged and only extends the remainder
                 let constrained = first_out.is_ok() || extent.map(|e| *at >= e).unwrap_or(false);
                 if constrained {
-                    if out.class != first_out.class && !(out.is_rejection() && first_out.is_rejection()) {
+                    if out.is_ok() != first_out.is_ok() {
                         ctx.violate(Prop::C06, "locality/class-changed", || {
                             format!("{}: answered {} with {} bytes buffered and {} with {} bytes buffered (declared extent {:?})", kind, first_out.show(), at, out.show(), buf.len(), extent)
                         });
@@ -404,7 +409,7 @@ pub fn execute(scn: &Scenario, ctx: &mut Ctx) {
         if let (Some((oa, da)), Some((ob, db))) = (a, b) {
             ctx.log(0xa17, oa.code(), ob.code());
             ctx.count("oracle/alternative_trailing_string_comparisons", 1);
-            if oa.class != ob.class && !(oa.is_rejection() && ob.is_rejection()) {
+            if oa.is_ok() != ob.is_ok() {
                 ctx.violate(Prop::C06, "locality/class-changed", || format!("{}: {} when followed by one {}-byte string, {} when followed by another of the same length", kind, oa.show(), trail.len(), ob.show()));
             } else if da != db {
                 ctx.violate(Prop::C06, "locality/value-changed", || format!("{}: the parsed value / consumption / slice positions depend on the CONTENT of the {} bytes that follow the structure", kind, trail.len()));
